@@ -1,5 +1,7 @@
 import Ufo2ftModel.Drv.C01
 import Ufo2ftModel.Spec.C13
+import Ufo2ftModel.Spec.C13Flags
+import Ufo2ftModel.Model.C13Flags
 import Ufo2ftModel.Spec.Good
 namespace Ufo2ft.Drv.C13
 open Lean Ufo2ft Ufo2ft.Drv Ufo2ft.C13
@@ -120,9 +122,61 @@ def vfskip (req : Json) : R Reply := do
     let bad := vfWrong skip orderFull orderSkip samples
     return { model, holds := bad.isEmpty, info := strsJ bad, hyp }
 
+/-- a glyph of a compiled TrueType font: [name, adv, null | [[base, useMyMetrics, roundXY, x, y, plain]]] -/
+def asTTGlyph (j : Json) : R (String × Int × Option (List (String × Bool × Bool))) := do
+  match ← asArr j with
+  | [n, a, cs] =>
+    let comps ← asOpt (asList (fun c => do
+      match ← asArr c with
+      | [b, m, _, _, _, pl] => pure ((← asStr b, ← asBool m, ← asBool pl) : String × Bool × Bool)
+      | _ => throw "ttcomp")) cs
+    return (← asStr n, ← asInt a, comps)
+  | _ => throw "ttglyph"
+
+def toTTObs (g : String × Int × Option (List (String × Bool × Bool))) : TTObs :=
+  { name := g.1, adv := g.2.1, comps := g.2.2.map (fun cs => cs.map (fun c => (c.1, c.2.1))) }
+
+def asCLib (j : Json) : R CLib := do
+  match ← asStr j with
+  | "u" => pure .untouched
+  | "t" => pure (.entry (some true))
+  | "f" => pure (.entry (some false))
+  | "n" => pure (.entry none)
+  | _ => throw "clib"
+
+/-- the model's USE_MY_METRICS flags (`setCompositeFlags`) for the composites of one compiled font that have hinting data:
+    the components as compiled (base, plain), the `hmtx` advances of that font, the UFO's per-component lib entries -/
+def modelFlags (ulib : List (String × List CLib)) (font : List (String × Int × Option (List (String × Bool × Bool)))) : Json :=
+  let adv := fun (n : String) => (font.find? (fun g => g.1 == n)).map (·.2.1)
+  listJ (fun (r : String × List Bool) => Json.arr #[Json.str r.1, listJ Json.bool r.2])
+    (font.filterMap (fun g => match g.2.2, ulib.find? (fun u => u.1 == g.1) with
+      | some cs, some u =>
+        some (g.1, (setCompositeFlags adv g.2.1 u.2 (cs.map (fun c => (⟨c.1, c.2.2, false⟩ : TTComp)))).map (·.useMy))
+      | _, _ => none))
+
+/-- op "ttflags": a TrueType font compiled without and with a skip list from a source with per-component hinting data.
+    in = {skip, ulib:[[glyph, ["u"|"t"|"f"|"n"]]], full:[glyph]}; obs = {err} | {glyphs:[glyph]}.
+    `holds`: `holdsTT` on the two observed fonts (declarative).  `model`: the USE_MY_METRICS flags the model of
+    `_set_composite_flags` / `autoUseMyMetrics` puts on the observed component lists of both fonts. -/
+def ttflags (req : Json) : R Reply := do
+  let i ← field req "in"
+  let skip ← asList asStr (← field i "skip")
+  let fullG ← asList asTTGlyph (← field i "full")
+  let ulib ← asList (asPair asStr (asList asCLib)) (← field i "ulib")
+  let obs ← field req "obs"
+  match ← asOpt asStr (← field obs "err") with
+  | some _ => return { model := Json.null, holds := false }
+  | none =>
+    let cutG ← asList asTTGlyph (← field obs "glyphs")
+    let full := fullG.map toTTObs
+    let cut := cutG.map toTTObs
+    return { model := Json.mkObj [("full", modelFlags ulib fullG), ("cut", modelFlags ulib cutG)],
+             holds := holdsTT skip full cut, info := strsJ (ttWrong full cut) }
+
 def handle (op : String) (req : Json) : R Reply :=
   match op with
   | "vfskip" => vfskip req
+  | "ttflags" => ttflags req
   | "filter" => filter req
   | "compile" => compile req
   | "resolve" => resolve req
